@@ -275,9 +275,6 @@ theorem SStr.readline_spec (s : SStr) (text : List Char) (h : Coh s text) :
   · have := h.ale; simp only [List.length_drop] at hlen; omega
   · rw [← List.drop_drop]; exact hx
 
-/-- no `str.splitlines` boundary other than CR / LF occurs -/
-def noExotic (l : List Char) : Bool := l.all (fun c => !isExotic c)
-
 theorem noExotic_drop (l : List Char) (n : Nat) (h : noExotic l = true) : noExotic (l.drop n) = true := by
   simp only [noExotic, List.all_eq_true] at *
   intro c hc; exact h c (List.mem_of_mem_drop hc)
